@@ -683,7 +683,7 @@ func (s *Stage) cleanStrays(minAge time.Duration) {
 			fileHash := s.getFileHash(filePath)
 			if fileState > stateReceived {
 				delete = comp == nil || comp.Hash == fileHash
-				deleteCmp = compExists && fileState == stateLogged
+				deleteCmp = delete && compExists && fileState == stateLogged
 				s.logDebug("Stray partial cache info:", relPath, fileState, fileHash)
 			} else {
 				end := time.Now()
